@@ -73,6 +73,21 @@ def plan_st(draw, tier):
         h.fitted, h.rows = True, len(dec)
         q = [list(row) for _ in range(draw(st.integers(1, 3)))] if h.contextual else h.queries()
         return {"config": cfg, "ops": h.ops, "query": q}
+    if not cfg["np"] and 3 <= len(cfg["arms"]) <= 8 and draw(st.integers(0, 7)) == 0:
+        # warm-started arms that outlive their sources: some arms are trained, the others are warm-started from them with
+        # a generous threshold, then every trained arm is removed - what is left has state but no observation of its own
+        dec, rew, cx = h.batch(omit=True)
+        h.ops.append(["fit", dec, rew, cx])
+        h.fitted, h.rows = True, len(dec)
+        h.warm_start()[2] = draw(st.sampled_from([1.0, 1.0, 0.75]))
+        for a in [a for a in list(h.arms) if a in dec]:
+            if len(h.arms) > 1:
+                h.arms.remove(a)
+                h.removed.append(a)
+                h.ops.append(["remove_arm", a])
+        if draw(st.booleans()):
+            h.add_arm()
+        return {"config": cfg, "ops": h.ops, "query": h.queries()}
     h.fit() if draw(st.integers(0, 3)) else h.partial_fit()
     for _ in range(draw(st.integers(0, 5))):
         gen.step_any(h, gen.TRAIN_KINDS + gen.ARM_KINDS + gen.WARM_KINDS + ["predict"])
